@@ -70,8 +70,7 @@ def run(ctx):
         rel_specs = [("chain", "tcp", dict(ntun=1, ops=("tclose", "fail", "disc", "reset", "rev", "cancel"), maxf=1, maxr=1)),
                      ("fanin", "tcp", dict(ops=("disc",), maxf=0, maxr=0)),
                      ("vee", "forward", dict(ops=("fail", "tclose"), maxf=0, maxr=0)),
-                     ("vee", "tcp", dict(ops=("fail", "disc"), maxf=0, maxr=0)),
-                     ("fork", "tcp", dict(ops=("disc",), maxf=0, maxr=0))]
+                     ("vee", "tcp", dict(ops=("fail", "disc"), maxf=0, maxr=0))]
     for topo, variant, c in rel_specs:
         thunks.append(lambda topo=topo, variant=variant, c=c: R.relation(ctx, "rel_%s_%s" % (topo, variant), topo, **c))
     res = R.parallel(thunks)
